@@ -11,7 +11,7 @@ import sys
 from .. import env
 from .. import wbk
 from .. import fcase
-from ..fcase import Q, ANY_ERR
+from ..fcase import Q, ANY_ERR, OneOf
 
 ID = 'C12'
 LEVEL = 'exploration'
@@ -208,6 +208,38 @@ def build(spec):
                     f = f'={fn}({short},{",".join(x for pt in ptexts for x in pt)})'
                 qs.append(Q(f, ANY_ERR, f'{fn}:misaligned', True, tags + ['misaligned'], meta={'fi': fi, 'triggers': trig}))
                 continue
+            if fs.get('wide'):
+                # two-column areas: positions pair up cell by cell (row-major); equal height but another width is misaligned
+                ci = pairs[0]['col']
+                if fn == 'SUMIF' or len(pairs) != 1 or ci + 1 >= target or target + 1 >= len(cols):
+                    continue
+                crit_area = f'{COLS[ci]}1:{COLS[ci + 1]}{height}'
+                tgt_area = f'{COLS[target]}1:{COLS[target + 1]}{height}'
+                ctext = ptexts[0][1]
+                if fs['wide'] == 'misaligned':
+                    if fn == 'COUNTIFS':
+                        continue
+                    qs.append(Q(f'={fn}({tgt_area},{ptexts[0][0]},{ctext})', ANY_ERR, f'{fn}:wide-misaligned', True, tags + ['wide-misaligned'],
+                                meta={'fi': fi, 'triggers': trig}))
+                    continue
+                cvals = [cols[ci + dc][r] for r in range(height) for dc in (0, 1)]
+                tvals = [cols[target + dc][r] for r in range(height) for dc in (0, 1)]
+                if any(ckind(v) not in ('num', 'blank') for v in tvals):
+                    raise Skip('non-numeric target')
+                wsel = [accepts(pairs[0]['crit'], v) for v in cvals]
+                picked = [t for t, s_ in zip(tvals, wsel) if s_]
+                nums = [v for v in picked if ckind(v) == 'num']
+                if fn == 'COUNTIFS':
+                    exp, f = sum(1 for s_ in wsel if s_), f'=COUNTIFS({crit_area},{ctext})'
+                elif fn == 'SUMIFS':
+                    exp, f = sum(nums), f'=SUMIFS({tgt_area},{crit_area},{ctext})'
+                else:
+                    if any(ckind(v) == 'blank' for v in picked):
+                        raise Skip('blank among averaged cells')
+                    exp, f = ((sum(nums) / len(nums)) if nums else ANY_ERR), f'=AVERAGEIFS({tgt_area},{crit_area},{ctext})'
+                qs.append(Q(f, exp, fn + ':wide:' + pairs[0]['crit']['form'], any(wsel) and not all(wsel), tags + ['wide'],
+                            meta={'selected': wsel, 'fi': fi, 'triggers': trig}))
+                continue
             sel = selected(spec, pairs)
             tcol = cols[target] if target is not None else cols[pairs[0]['col']]
             if fn != 'COUNTIFS' and any(ckind(v) not in ('num', 'blank') for v in tcol):
@@ -220,6 +252,15 @@ def build(spec):
                     f = f'=SUMIF({ptexts[0][0]},{ptexts[0][1]})'
                 elif fs.get('target_as_cell'):
                     f = f'=SUMIF({ptexts[0][0]},{ptexts[0][1]},{COLS[target]}1)'
+                elif fs.get('target_shape') in ('shorter', 'longer', 'row'):
+                    # a sum range of another size: its first cell anchors a range with the shape of the criteria range (Excel),
+                    # or the call is an error - but never a silently truncated or transposed fold
+                    ts = fs['target_shape']
+                    tr_ = {'shorter': f'{COLS[target]}1:{COLS[target]}{max(1, height - 2)}', 'longer': f'{COLS[target]}1:{COLS[target]}{height + 3}',
+                           'row': f'{COLS[target]}1:{COLS[min(target + 3, 6)]}1'}[ts]
+                    f = f'=SUMIF({ptexts[0][0]},{ptexts[0][1]},{tr_})'
+                    exp = OneOf(exp, ANY_ERR)
+                    tags = tags + ['sumif-target:' + ts]
                 else:
                     f = f'=SUMIF({ptexts[0][0]},{ptexts[0][1]},{rng(target)})'
             elif fn == 'SUMIFS':
@@ -266,6 +307,8 @@ def strategy():
         ncrit = len(cols)
         target = ncrit
         cols.append([draw(st.one_of(st.integers(1, 50), st.integers(1, 50), st.none(), st.sampled_from([0.5, 2.25]))) for _ in range(height)])
+        # a second target column (for two-column target areas and as the landing zone of re-shaped SUMIF sum ranges)
+        cols.append([draw(st.one_of(st.integers(51, 99), st.none())) for _ in range(height)])
 
         def crit_for(ci):
             fl = flavours[ci]
@@ -299,14 +342,21 @@ def strategy():
                 ci = draw(st.integers(0, ncrit - 1))
                 tgt = draw(st.sampled_from([target, target, None]))
                 formulas.append({'fn': fn, 'pairs': [{'col': ci, 'crit': crit_for(ci)}], 'target': tgt,
-                                 'target_as_cell': draw(st.integers(0, 3)) == 0})
+                                 'target_as_cell': draw(st.integers(0, 3)) == 0,
+                                 'target_shape': draw(st.sampled_from([None, None, 'shorter', 'longer', 'row']))})
             else:
                 k = draw(st.integers(1, min(3, ncrit + 1)))
                 pairs = []
                 for _ in range(k):
                     ci = draw(st.integers(0, ncrit - 1))
                     pairs.append({'col': ci, 'crit': crit_for(ci)})
-                formulas.append({'fn': fn, 'pairs': pairs, 'target': target, 'misaligned': draw(st.integers(0, 7)) == 0})
+                wide = None
+                same_flavour = [i for i in range(ncrit - 1) if flavours[i] == flavours[i + 1]]
+                if same_flavour and draw(st.integers(0, 2)) == 0:
+                    ci = draw(st.sampled_from(same_flavour))
+                    pairs = [{'col': ci, 'crit': crit_for(ci)}]
+                    wide = draw(st.sampled_from(['aligned', 'aligned', 'misaligned']))
+                formulas.append({'fn': fn, 'pairs': pairs, 'target': target, 'misaligned': draw(st.integers(0, 7)) == 0 and not wide, 'wide': wide})
         return {'columns': cols, 'formulas': formulas}
     return spec()
 
